@@ -946,6 +946,18 @@ pub fn c19_configs(thorough: bool) -> Vec<EpCfg> {
         c.groups = vec!["c19"];
         v.push(c);
     }
+    // a server whose application publishes while it still owes the CONNACK (stored), and then refuses the
+    // connection: the refusing CONNACK is the last thing requested for sending
+    for ver in VERS {
+        let mut c = EpCfg::new(&cfg_name("c19", RoleK::Server, Some(ver), "publishes while the CONNACK is owed, refusal"), RoleK::Server, Some(ver));
+        c.auto_pub = true;
+        c.window = 2;
+        c.alph = Alph { pub_q: vec![1, 2], topics: 1, als: vec![Al::No], pub_any_status: true, peer_acks: vec![AckKind::Puback, AckKind::Pubrec, AckKind::Pubcomp], peer_ack_ids: vec![1, 2], spontaneous_close: true, ..Alph::default() };
+        c.connects = vec![ConnProf::basic(false), ConnProf::basic(true)];
+        c.connacks = vec![AckProf { ok: false, ..AckProf::basic(false) }, AckProf::basic(true), AckProf::basic(false)];
+        c.groups = vec!["c19"];
+        v.push(c);
+    }
     v
 }
 pub fn c19(rep: &mut Report) {
